@@ -48,6 +48,7 @@ class Spec:
         self.algs = algs  # topological order
         self.events = events or []  # [(alg_full, kind, arg, (h,m,s))]
         self.base = base
+        self.helpers = {}  # pkg -> [names of helper modules its bot imports] (only matters for on-disk engines)
         self.by = {a.full: a for a in algs}
 
     @property
@@ -59,11 +60,14 @@ class Spec:
         return out
 
     def to_json(self):
-        return {'algs': [a.to_json() for a in self.algs], 'events': [list(e) for e in self.events], 'base': self.base}
+        return {'algs': [a.to_json() for a in self.algs], 'events': [list(e) for e in self.events], 'base': self.base,
+                'helpers': {k: list(v) for k, v in self.helpers.items()}}
 
     @staticmethod
     def from_json(d):
-        return Spec([AlgSpec.from_json(a) for a in d['algs']], [tuple(e) for e in d['events']], d.get('base', 'vae'))
+        sp = Spec([AlgSpec.from_json(a) for a in d['algs']], [tuple(e) for e in d['events']], d.get('base', 'vae'))
+        sp.helpers = {k: list(v) for k, v in (d.get('helpers') or {}).items()}
+        return sp
 
     def brief(self):
         out = []
@@ -486,7 +490,7 @@ def evolve(ch, spec, max_total=8, graph_edits=True):
     for _ in range(nedit):
         kinds = ['alg', 'sv', 'val', 'none', 'revert']
         if graph_edits:
-            kinds += ['add_input', 'del_input', 'add_alg']
+            kinds += ['add_input', 'del_input', 'add_alg', 'new_module']
         k = kinds[ch.choose('evo.kind', len(kinds))]
         a = algs[ch.choose('evo.alg', len(algs))]
         if k == 'revert':
@@ -513,6 +517,10 @@ def evolve(ch, spec, max_total=8, graph_edits=True):
             vals[j] = (vals[j][0], _bump(vals[j][1], ch, 'evo.bump'))
             a.svs[i] = (s, v, vals)
             log.append(f'{a.full}.{s}.{vals[j][0]} -> {vals[j][1]}')
+        elif k == 'new_module':
+            names = new.helpers.setdefault(a.pkg, [])
+            names.append(f'helper_{len(names) + 1}')
+            log.append(f'{a.pkg}.bot now imports the new module {a.pkg}.{names[-1]}')
         elif k == 'add_input':
             pos = algs.index(a)
             if pos > 0:
@@ -541,6 +549,7 @@ def evolve(ch, spec, max_total=8, graph_edits=True):
                 algs.append(na)
                 log.append(f'new algorithm {na.full}[{kind[0]}]({y.full}.{ysv[0]})')
     out = Spec(algs, new.events, new.base)
+    out.helpers = new.helpers
     out.change_log = log
     out.history = list(getattr(spec, 'history', [])) + [{x.full: x.to_json() for x in spec.algs}]
     return out
@@ -561,3 +570,108 @@ def unrecorded(spec, versions):
         if miss:
             out.add(a.full)
     return out
+
+
+# --------------------------------------------------------------------------
+# on-disk materialisation: explicit factories, bots extending the deprecated dawgie.Task family
+# --------------------------------------------------------------------------
+
+
+def _cls(*parts):
+    return '_'.join(p.replace('.', '_') for p in parts)
+
+
+def _ref_src(base, ref, spec):
+    full, lvl, sv, val = ref
+    y = spec.by[full]
+    fac = f'{base}.{y.pkg}.{y.kind}'
+    impl = f'{base}.{y.pkg}.bot.{_cls("Alg", y.name)}()'
+    if lvl == 'alg':
+        return f'dawgie.ALG_REF({fac}, {impl})'
+    if lvl == 'sv':
+        return f'(lambda i: dawgie.SV_REF({fac}, i, i.sv_as_dict()[{sv!r}]))({impl})'
+    return f'(lambda i: dawgie.V_REF({fac}, i, i.sv_as_dict()[{sv!r}], {val!r}))({impl})'
+
+
+def package_sources(spec, pkg):
+    """(source of <pkg>/__init__.py, source of <pkg>/bot.py) for one package of the spec"""
+    base = spec.base
+    algs = [a for a in spec.algs if a.pkg == pkg]
+    kinds = sorted({a.kind for a in algs})
+    init = ['import dawgie', f'import {base}.{pkg}.bot', '', '']
+    sig = {'task': "prefix, ps_hint=0, runid=-1, target='__none__'", 'analysis': 'prefix, ps_hint=0, runid=-1', 'regress': "prefix, ps_hint=0, target='__none__'"}
+    call = {'task': 'Actor(prefix, ps_hint, runid, target)', 'analysis': 'Agent(prefix, ps_hint, runid)', 'regress': 'Regr(prefix, ps_hint, target)'}
+    for k in kinds:
+        init += [f'def {k}({sig[k]}):', f'    return {base}.{pkg}.bot.{call[k]}', '', '']
+    evs = [e for e in spec.events if spec.by[e[0]].pkg == pkg]
+    if evs:
+        init += ['def events():', '    import datetime', '    return [']
+        for full, k, arg, tod in evs:
+            a = spec.by[full]
+            kw = {'boot': 'boot=True', 'dow': f'dow={arg}', 'dom': f'dom={arg}', 'day': f'day=datetime.date{tuple(arg) if k == "day" else ""}'}[k]
+            if tod is not None:
+                kw += f', time=datetime.time{tuple(tod)}'
+            init += [f'        dawgie.schedule({a.kind}, {base}.{pkg}.bot.{_cls("Alg", a.name)}(), {kw}),']
+        init += ['    ]', '']
+    bot = ['import dawgie'] + [f'import {base}.{pkg}.{h}' for h in spec.helpers.get(pkg, [])] + ['', '']
+    base_cls = {'task': 'dawgie.Algorithm', 'analysis': 'dawgie.Analyzer', 'regress': 'dawgie.Regression'}
+    dep = {'task': 'previous', 'analysis': 'traits', 'regress': 'variables'}
+    run_sig = {'task': 'ds, ps', 'analysis': 'aspects', 'regress': 'ps, timeline'}
+    others = sorted({spec.by[r[0]].pkg for a in algs for r in list(a.inputs) + list(a.feedback)})
+    imports = [f'        import {base}.{o}', f'        import {base}.{o}.bot' ] if False else None
+    for a in algs:
+        for svn, svver, vals in a.svs:
+            for vn, vver in vals:
+                c = _cls('Val', a.name, svn, vn)
+                bot += [f'class {c}(dawgie.Value):', '    def __init__(self, content=None):', '        dawgie.Value.__init__(self)',
+                        f'        self._version_ = dawgie.VERSION{tuple(vver)}', '        self.content = content', '',
+                        '    def features(self):', '        return []', '', '']
+            c = _cls('SV', a.name, svn)
+            bot += [f'class {c}(dawgie.StateVector):', '    def __init__(self):', '        dawgie.StateVector.__init__(self)',
+                    f'        self._version_ = dawgie.VERSION{tuple(svver)}']
+            for vn, _vv in vals:
+                bot += [f'        self[{vn!r}] = {_cls("Val", a.name, svn, vn)}()']
+            bot += ['', '    def name(self):', f'        return {svn!r}', '', '    def view(self, caller, visitor):', "        visitor.add_primitive('generated')", '', '']
+        c = _cls('Alg', a.name)
+        bot += [f'class {c}({base_cls[a.kind]}):', '    def __init__(self):', f'        self._version_ = dawgie.VERSION{tuple(a.ver)}',
+                f'        self._svs = [{", ".join(_cls("SV", a.name, s[0]) + "()" for s in a.svs)}]', '',
+                '    def name(self):', f'        return {a.name!r}', '', '    def state_vectors(self):', '        return self._svs', '']
+        for meth, refs in ((dep[a.kind], a.inputs), ('feedback', a.feedback)):
+            bot += [f'    def {meth}(self):']
+            for o in sorted({spec.by[r[0]].pkg for r in refs}):
+                bot += [f'        import {base}.{o}', f'        import {base}.{o}.bot']
+            bot += ['        return [' + ', '.join(_ref_src(base, r, spec) for r in refs) + ']', '']
+        bot += [f'    def run(self, {run_sig[a.kind]}):', '        return None', '',
+                '    def where(self):', f'        return dawgie.Distribution.{getattr(a, "where", "cluster")}', '', '']
+    for kind, bcls, parent in (('task', 'Actor', 'dawgie.Task'), ('analysis', 'Agent', 'dawgie.Analysis'), ('regress', 'Regr', 'dawgie.Regress')):
+        if kind in kinds:
+            bot += [f'class {bcls}({parent}):', '    def list(self):',
+                    '        return [' + ', '.join(_cls('Alg', a.name) + '()' for a in algs if a.kind == kind) + ']', '', '']
+    return '\n'.join(init), '\n'.join(bot)
+
+
+def write_disk(spec, root, only=None):
+    """write the engine as source packages under <root>/<base>/...; `only` = packages to (re)write"""
+    import os
+
+    top = os.path.join(root, *spec.base.split('.'))
+    os.makedirs(top, exist_ok=True)
+    p = os.path.join(top, '__init__.py')
+    if not os.path.exists(p):
+        open(p, 'w').close()
+    written = []
+    for pkg in spec.pkgs:
+        if only is not None and pkg not in only:
+            continue
+        d = os.path.join(top, pkg)
+        os.makedirs(d, exist_ok=True)
+        init, bot = package_sources(spec, pkg)
+        files = [('__init__.py', init), ('bot.py', bot)] + [(f'{h}.py', f'NAME = {h!r}\n') for h in spec.helpers.get(pkg, [])]
+        for name, src in files:
+            fp = os.path.join(d, name)
+            old = open(fp).read() if os.path.exists(fp) else None
+            if old != src:
+                with open(fp, 'w') as f:
+                    f.write(src)
+                written.append(f'{pkg}/{name}')
+    return written
